@@ -47,6 +47,64 @@ def run(repo, chk):
     rule_f(repo, chk)
     rule_g(repo, chk)
     rule_h(repo, chk)
+    rule_handover(repo, chk)
+
+
+def rule_handover(repo, chk):
+    """Three places where an event fired by another thread could end up unseen: a queue that is being handed over to another tree, the return from a nested
+    dispatch into a generate_events handler, and a loop that does not serve the queue its events go to."""
+    from .common import COMPONENTS
+    chk.rule('C03.i', 'a component is handed over to another tree under its own lock, and a cross-thread fire re-checks the root under that lock before it queues; '
+                      'the dispatcher re-checks the queue when it re-publishes a generate_events event after a nested dispatch')
+    reg = repo.func(COMPONENTS, 'BaseComponent.register')
+    chk.touch(reg)
+    g = reg.cfg()
+    par = reg.params[1]
+    rc = [n for n in g.nodes if n.kind == 'stmt' and any(r == par for r, _c in pat.method_calls(n.ast, 'registerChild'))]
+    rs = [n for n in g.nodes if n.kind == 'stmt' and 'self' in pat.stores_attr(n.ast, 'root')]
+    need(rc and rs, 'C03.i: register() lacks registerChild / the root switch')
+    okl = all(_under(n, 'self._lock') for n in rc + rs)
+    same = okl and len({id([a for k, a in n.ctx if k == 'with'][-1]) for n in rc + rs}) == 1
+    chk.ob('i', reg.ref, 'the queue hand-over (registerChild) and the root switch happen in one critical section of the component\'s lock', okl and same,
+           loc(reg, rc[0].ast), discr='handover-locked')
+    f = repo.func(MANAGER, 'Manager._fire')
+    gf = f.cfg()
+    apps = [n for n in gf.nodes if n.kind == 'stmt' and any(r == 'self._queue' for r, _c in pat.method_calls(n.ast, 'append')) and _under(n, 'self._lock')]
+    need(apps, 'C03.i: _fire has no locked append')
+    still_root = pat.test_edge(lambda tt, pol: pat.fact_matches(pat.compare_fact(tt, pol), 'self.root', ('is', '=='), 'self'))
+    for n in apps:
+        q = pat.guarded_by(gf, n, still_root)
+        locked_test = [t_ for t_ in gf.nodes if t_.kind == 'test' and 'self.root' in src(t_.ast) and _under(t_, 'self._lock')]
+        chk.ob('i', f.ref, 'a fire from another thread queues here only after it has found, under the lock, that this manager still is the root', q is None and bool(locked_test),
+               loc(f, n.ast), path=pat.path_lines(q) if q else None, discr='root-rechecked-under-lock')
+    d = repo.func(MANAGER, 'Manager._dispatcher')
+    gd = d.cfg()
+    ev = d.params[1]
+    pubs = [n for n in gd.nodes if n.kind == 'stmt' and 'self' in pat.stores_attr(n.ast, '_currently_handling') and src(n.ast.value) == ev]
+    saved = {src(n.ast.targets[0]) for n in gd.nodes if n.kind == 'stmt' and isinstance(n.ast, ast.Assign) and isinstance(n.ast.targets[0], ast.Name)
+             and src(n.ast.value) == 'self._currently_handling'}
+    restores = [n for n in gd.nodes if n.kind == 'stmt' and 'self' in pat.stores_attr(n.ast, '_currently_handling') and src(n.ast.value) in saved]
+    need(restores, 'C03.i: the dispatcher never re-publishes the previously handled event')
+    for n in restores:
+        sv = src(n.ast.value)
+        not_ge = pat.guarded_by(gd, n, pat.test_edge(lambda tt, pol: pol == 'F' and src(tt).replace(' ', '') == f'isinstance({sv},generate_events)')) is None
+        if not_ge:
+            chk.ob('i', d.ref, 're-publishing without the lock happens only for events that are not generate_events', True, loc(d, n.ast), discr='restore-unlocked-not-ge', nontrivial=False)
+            continue
+        locked = _under(n, 'self._lock')
+        red = [m for m in gd.nodes if _reduce0(m) == sv and _under(m, 'self._lock')]
+        qedges = [e for t_ in gd.nodes if t_.kind == 'test' and _under(t_, 'self._lock') and Q.reaches(n, t_) for e in t_.succ
+                  if (e.kind == 'T' and src(t_.ast) in ('len(self._queue)', 'self._queue')) or pat.fact_matches(pat.compare_fact(t_.ast, e.kind), 'len(self._queue)', ('>', '!='), '0')]
+        ok = locked and bool(red) and bool(qedges) and all(e.dst in red or Q.escapes(gd, [e.dst], lambda m: m in red) is None for e in qedges)
+        chk.ob('i', d.ref, 'a generate_events event is re-published (after a nested dispatch) under the manager lock, and pending work found there disarms its idle wait: what '
+                           'another thread fired during the nested dispatch woke nobody', ok, loc(d, n.ast), discr='restore-rechecks-queue')
+    # the loop of a manager serves the queue its events are fired into
+    t = repo.func(MANAGER, 'Manager.tick')
+    chk.touch(t)
+    own = [n for n in walk_no_defs(t.node) if isinstance(n, ast.Attribute) and src(n) == 'self._queue']
+    chk.ob('i', t.ref, 'tick() looks for work in the queue its events are fired into (fire() goes to the root\'s queue: a loop that was adopted by another tree through '
+                       'registerChild must serve that tree\'s queue)', not own, loc(t, own[0]) if own else loc(t, t.node),
+           detail='tick() tests and flushes `self._queue`, fire() appends to `self.root._queue`', discr='loop-serves-root-queue')
 
 
 def rule_g(repo, chk):
@@ -239,7 +297,8 @@ def rule_b(repo, chk):
     for n in ge_pubs:
         chk.ob('b', d.ref, 'the generate_events instance is published under the manager lock', _under(n, 'self._lock'),
                loc(d, n.ast), discr='publish-locked')
-        region = [m for m in g.nodes if _under(m, 'self._lock')]
+        withs = [a for k, a in n.ctx if k == 'with']
+        region = [m for m in g.nodes if _under(m, 'self._lock') and (not withs or any(k == 'with' and a is withs[-1] for k, a in m.ctx))]     # the same critical section
         red = [m for m in region if _reduce0(m) == ev]
         atoms = {
             'remaining>0': lambda t, pol: pat.fact_matches(pat.compare_fact(t, pol), rem, ('>', '!='), '0') or (pol == 'T' and src(t) == rem),
